@@ -422,19 +422,24 @@ func slowGenBankOriginParser(length int) pars.Parser {
 			extent += len(prefix)
 
 			for j := 0; j < 60 && i+j < length; j += 10 {
-				if q[extent] != spaceByte {
+				if extent >= len(q) || q[extent] != spaceByte {
 					pos.Byte += extent
 					return pars.NewError("expected whitespace", pos)
 				}
 				extent++
 
 				for k := 0; k < 10 && i+j+k < length; k++ {
-					if !isBaseCharacter(q[extent]) {
+					if extent >= len(q) || !isBaseCharacter(q[extent]) {
 						pos.Byte += extent
 						return pars.NewError("expected character", pos)
 					}
 					extent++
 				}
+			}
+
+			if extent != len(q) {
+				pos.Byte += extent
+				return pars.NewError("expected newline", pos)
 			}
 
 			offset += copy(p[offset:], q[:extent])
@@ -455,6 +460,10 @@ func makeGenbankOriginParser(length int) genbankSubparser {
 			}
 			pars.Line(state, result)
 
+			if length < 0 {
+				return pars.NewError("sequence length cannot be negative", state.Position())
+			}
+
 			if err := state.Request(toOriginLength(length)); err != nil {
 				return pars.NewError("not enough bytes in state", state.Position())
 			}
@@ -462,15 +471,19 @@ func makeGenbankOriginParser(length int) genbankSubparser {
 			p := state.Buffer()
 			if validateOrigin(p, length, state.Position()) == nil {
 				state.Advance()
-				gb.Origin = &Origin{p, false}
-				return nil
+			} else {
+				parser := slowGenBankOriginParser(length)
+				if err := parser(state, result); err != nil {
+					return err
+				}
+				p = result.Token
 			}
 
-			parser := slowGenBankOriginParser(length)
-			if err := parser(state, result); err != nil {
-				return err
+			// The sequence must end where the declared length says it does.
+			end := pars.Dry(pars.Any(pars.End, pars.Seq("//", pars.EOL)))
+			if err := end(state, pars.Void); err != nil {
+				return pars.NewError("expected end of record after sequence", state.Position())
 			}
-			p = result.Token
 
 			gb.Origin = &Origin{p, false}
 			return nil
